@@ -187,4 +187,9 @@ globals / containers, mutable defaults, memoising decorators), in any function r
 classes of the site table, and every entry point was scanned -/
 theorem dc_state_writes_ok : stateWritesOk dc_state_writes dc_state_reach = true := by decide
 
+/-- the anchored blocks and the tensor helpers under them have a single exit (their last statement) and no in-place
+operation (`x += …`, `x[...] = …` on an argument, `x.op_()`, `out=`): the plans above cover every path, and no argument
+is modified -/
+theorem dc_block_shape_ok : blockShapeOk dc_block_exits dc_block_inplace = true := by decide
+
 end DirectVerif.Bridge.C19
